@@ -491,6 +491,7 @@ func Duplicate[T any](r fp.Iterator[T]) (fp.Iterator[T], fp.Iterator[T]) {
 
 	left := fp.MakeIterator(
 		func() bool {
+			verifYield("dup.lock")
 			lock.Lock()
 			defer lock.Unlock()
 
@@ -501,6 +502,7 @@ func Duplicate[T any](r fp.Iterator[T]) (fp.Iterator[T], fp.Iterator[T]) {
 			return true
 		},
 		func() T {
+			verifYield("dup.lock")
 			lock.Lock()
 			defer lock.Unlock()
 
@@ -522,6 +524,7 @@ func Duplicate[T any](r fp.Iterator[T]) (fp.Iterator[T], fp.Iterator[T]) {
 
 	right := fp.MakeIterator(
 		func() bool {
+			verifYield("dup.lock")
 			lock.Lock()
 			defer lock.Unlock()
 
@@ -532,6 +535,7 @@ func Duplicate[T any](r fp.Iterator[T]) (fp.Iterator[T], fp.Iterator[T]) {
 			return true
 		},
 		func() T {
+			verifYield("dup.lock")
 			lock.Lock()
 			defer lock.Unlock()
 
